@@ -65,7 +65,7 @@ def check_record(chk, r, rp, inp, tol, impl):
                 if abs(f.centroid[ax] - other) <= tol.pos * 10:
                     chk.violation('impl-vs-oracle', 'normal %s of boundary face %d (left %d) points into the box instead of outward through the wall %s' % (fl3(f.normal), k, f.left, where), rp, key='direction')
                 else:
-                    chk.violation('impl-vs-oracle', 'centroid of boundary face %d is off the wall %s' % (k, where), rp, key='onplane')
+                    chk.violation('impl-vs-oracle', 'centroid of boundary face %d is off the wall %s' % (k, where), rp, key='onplane' + (' gen-on-wall' if gen_on_wall(inp, f.left) else ''))
     # closure and divergence per constructed cell
     for i, c in enumerate(cells):
         if not mask[i] or c.volume is None:
@@ -89,10 +89,11 @@ def check_record(chk, r, rp, inp, tol, impl):
             amax = max(amax, f.area)
         if not ok:
             continue
+        onwall = ' gen-on-wall' if gen_on_wall(inp, i) else ''
         if max(abs(x) for x in tot) > tol.area * 100:
-            chk.violation('impl-vs-oracle', 'area-weighted outward normals of cell %d sum to %s instead of 0 %s' % (i, fl3(tot), where), rp, key='closure')
+            chk.violation('impl-vs-oracle', 'area-weighted outward normals of cell %d sum to %s instead of 0 %s' % (i, fl3(tot), where), rp, key='closure' + onwall)
         if abs(div / d - c.volume) > tol.vol * 100:
-            chk.violation('impl-vs-oracle', 'divergence theorem fails for cell %d: (1/d) sum area n.(c-g) = %s, volume = %s %s' % (i, fl(div / d), fl(c.volume), where), rp, key='divergence')
+            chk.violation('impl-vs-oracle', 'divergence theorem fails for cell %d: (1/d) sum area n.(c-g) = %s, volume = %s %s' % (i, fl(div / d), fl(c.volume), where), rp, key='divergence' + onwall)
 
 
 def run(chk):
